@@ -9,9 +9,12 @@ A model history is a list of `Op`s applied to a `State` that holds what reporter
 Values are `none | int | list of ints`; a model attribute holding a mutable list is a value
 here, so "deep copy at collect time" is what the model does by construction (aliasing is the
 business of the correspondence check).  Reporters are the four forms of the code, each
-carrying an *abstract function of the snapshot*; names of reporters, attributes, tables,
-columns and classes are small naturals (dict order = list order).  pandas is not modelled:
-a frame is (index tuples, columns, values).
+carrying an *abstract function of the snapshot* that returns a value or raises (`Except Err Val`);
+names of reporters, attributes, tables, columns and classes are small naturals (dict order =
+list order).  pandas is not modelled: a frame is (index tuples, columns, values).
+
+A reporter that raises ends `collect` where it stands: what the reporters before it appended
+stays (the partial collect is visible); see `collect`.
 -/
 namespace Mesa.Collect
 
@@ -41,34 +44,57 @@ deriving Repr, DecidableEq
 structure Snap where
   steps : Nat
   attrs : List (Nat × Val)
-  agents : List AgentS           -- `model.agents` in registry order
+  agents : List AgentS           -- `model.agents` in its current order (creation order until reordered in place)
 deriving Repr, DecidableEq
 
-/-- model-level reporter forms (`collect`, lines 325-341) -/
-inductive MRep where
-  | attr (a : Nat)                                        -- "name": `getattr(model, name, None)`
-  | fn (f : Snap → Val)                                   -- function / lambda / partial: `f(model)`
-  | meth (f : Snap → Val)                                 -- bound method: `f()`
-  | fnArgs (f : List Int → Snap → Val) (args : List Int)  -- `[f, args]`: `f(*args)`
+inductive Err where
+  | attr | value | key | unknown | missing | warn | index | runtime
+deriving Repr, DecidableEq
 
-def MRep.eval : MRep → Snap → Val
-  | .attr a, sn => getAttr sn.attrs a
+/-- the exception a reporter call raised, if any -/
+def excOf : Except Err Val → Option Err
+  | .ok _ => none
+  | .error e => some e
+
+/-- the value a reporter call returned (only read where `excOf` is `none`) -/
+def valOf : Except Err Val → Val
+  | .ok v => v
+  | .error _ => .none
+
+/-- model-level reporter forms (`collect`, lines 329-345); each function returns a value or raises -/
+inductive MRep where
+  | attr (a : Nat)                                                   -- "name": `getattr(model, name, None)`
+  | fn (f : Snap → Except Err Val)                                   -- plain function / lambda: `f(model)`; validated by a trial call
+  | part (f : Snap → Except Err Val)                                 -- `functools.partial`: `f(model)`; never validated
+  | meth (f : Snap → Except Err Val)                                 -- bound method: `f()`
+  | fnArgs (f : List Int → Snap → Except Err Val) (args : List Int)  -- `[f, args]`: `f(*args)`
+
+/-- evaluating the reporter on the model as it is -/
+def MRep.run : MRep → Snap → Except Err Val
+  | .attr a, sn => .ok (getAttr sn.attrs a)
   | .fn f, sn => f sn
+  | .part f, sn => f sn
   | .meth f, sn => f sn
   | .fnArgs f args, sn => f args sn
 
+def MRep.exc (r : MRep) (sn : Snap) : Option Err := excOf (r.run sn)
+def MRep.eval (r : MRep) (sn : Snap) : Val := valOf (r.run sn)
+
 /-- agent-level reporter forms (`_new_agent_reporter`, `_new_agenttype_reporter`) -/
 inductive ARep where
-  | attr (a : Nat)                                                  -- `getattr(agent, name, None)`
-  | fn (f : Snap → AgentS → Val)                                    -- function: `f(agent)`
-  | meth (f : Snap → AgentS → Val)                                  -- method of the class: `f(agent)`
-  | fnArgs (f : List Int → Snap → AgentS → Val) (args : List Int)   -- `[f, args]`: `f(agent, *args)`
+  | attr (a : Nat)                                                             -- `getattr(agent, name, None)`
+  | fn (f : Snap → AgentS → Except Err Val)                                    -- function: `f(agent)`
+  | meth (f : Snap → AgentS → Except Err Val)                                  -- method of the class: `f(agent)`
+  | fnArgs (f : List Int → Snap → AgentS → Except Err Val) (args : List Int)   -- `[f, args]`: `f(agent, *args)`
 
-def ARep.eval : ARep → Snap → AgentS → Val
-  | .attr a, _, ag => getAttr ag.attrs a
+def ARep.run : ARep → Snap → AgentS → Except Err Val
+  | .attr a, _, ag => .ok (getAttr ag.attrs a)
   | .fn f, sn, ag => f sn ag
   | .meth f, sn, ag => f sn ag
   | .fnArgs f args, sn, ag => f args sn ag
+
+def ARep.exc (r : ARep) (sn : Snap) (ag : AgentS) : Option Err := excOf (r.run sn ag)
+def ARep.eval (r : ARep) (sn : Snap) (ag : AgentS) : Val := valOf (r.run sn ag)
 
 /-- the reporter dictionaries handed to `DataCollector(...)` and the class hierarchy -/
 structure Cfg where
@@ -82,10 +108,6 @@ structure Row where
   step : Nat
   id : Nat
   vals : List Val
-deriving Repr, DecidableEq
-
-inductive Err where
-  | attr | value | key | unknown | missing | warn | index
 deriving Repr, DecidableEq
 
 abbrev Table := List (Nat × List Val)       -- column ↦ values
@@ -117,45 +139,123 @@ def State.snap (s : State) : Snap := { steps := s.steps, attrs := s.attrs, agent
 def mkRow (reps : List ARep) (sn : Snap) (ag : AgentS) : Row :=
   { step := sn.steps, id := ag.id, vals := reps.map fun r => r.eval sn ag }
 
-/-- `_validate_model_reporter` for every reporter: only a string reporter can fail here
-    (the abstract functions are total) -/
-def validateOk (cfg : Cfg) (s : State) : Bool :=
-  cfg.mreps.all fun r => match r with
-    | .attr a => (s.attrs.lookup a).isSome
-    | _ => true
+/-- `get_reports(agent)` evaluates the reporters in dict order: the first exception, if any -/
+def rowExc (reps : List ARep) (sn : Snap) (ag : AgentS) : Option Err := reps.findSome? fun r => r.exc sn ag
+
+/-- `list(map(get_reports, agents))`: agents in order; the first exception, if any (then no list is built) -/
+def rowsExc (reps : List ARep) (sn : Snap) (ags : List AgentS) : Option Err := ags.findSome? (rowExc reps sn)
+
+/-- `_validate_model_reporter` for the reporters in dict order, first failure: a string naming a missing
+    attribute (AttributeError), a plain function whose trial call raises (RuntimeError); partials, bound
+    methods and `[f, args]` lists are not called here -/
+def validateErr (cfg : Cfg) (s : State) : Option Err :=
+  cfg.mreps.findSome? fun r => match r with
+    | .attr a => if (s.attrs.lookup a).isSome then none else some .attr
+    | .fn f => match f s.snap with
+      | .ok _ => none
+      | .error _ => some .runtime
+    | _ => none
+
+/-- the validation step of `collect`: only while `_validated` is unset, only with model reporters -/
+def guardErr (cfg : Cfg) (s : State) : Option Err :=
+  if cfg.mreps.isEmpty || s.validated then none else validateErr cfg s
+
+/-- the loop over `model_reporters` (one `append` per reporter): a reporter that raises ends it; the
+    columns of the reporters before it have been appended to, its own and the later ones have not -/
+def mLoop (sn : Snap) : List MRep → List (List Val) → List (List Val) × Option Err
+  | r :: rs, col :: cols =>
+    match r.run sn with
+    | .error e => (col :: cols, some e)
+    | .ok v => ((col ++ [v]) :: (mLoop sn rs cols).1, (mLoop sn rs cols).2)
+  | _, cols => (cols, none)
+
+/-- in-place reorderings of `model.agents`: `shuffle(inplace=True)` with the permutation the random source
+    happens to draw (`rev` = reversed, `rot` = first to the end; any permutation is a product of such draws)
+    and `sort(key, ascending, inplace=True)` = Python's stable `sorted(..., reverse=not ascending)` by
+    `unique_id` or by an int-valued key read off attribute `a` -/
+inductive ReKind where
+  | rev
+  | rot
+  | byId (asc : Bool)
+  | byAttr (a : Nat) (asc : Bool)
+deriving Repr, DecidableEq
+
+/-- the sort key `byAttr a` uses: the attribute if it is an int, else 0 -/
+def intKey (a : Nat) (ag : AgentS) : Int :=
+  match getAttr ag.attrs a with
+  | .int i => i
+  | _ => 0
+
+/-- stable insertion sort (structural, so that examples reduce in the kernel): `x` goes in front of the first
+    element it is `le` to — elements that compare equal keep their order -/
+def insertBy (le : α → α → Bool) (x : α) : List α → List α
+  | [] => [x]
+  | y :: ys => if le x y then x :: y :: ys else y :: insertBy le x ys
+
+def sortStable (le : α → α → Bool) : List α → List α
+  | [] => []
+  | x :: xs => insertBy le x (sortStable le xs)
+
+/-- `sorted(agents, key=key, reverse=not asc)`: stable in both directions -/
+def sortBy (key : AgentS → Int) (asc : Bool) (l : List AgentS) : List AgentS :=
+  if asc then sortStable (fun x y => decide (key x ≤ key y)) l else sortStable (fun x y => decide (key y ≤ key x)) l
+
+def reorderList : ReKind → List AgentS → List AgentS
+  | .rev, l => l.reverse
+  | .rot, l => l.drop 1 ++ l.take 1
+  | .byId asc, l => sortBy (fun ag => (ag.id : Int)) asc l
+  | .byAttr a asc, l => sortBy (intKey a) asc l
+
+/-- `model.agents_by_type[T]` is an AgentSet of its own: it keeps the order in which the agents were created
+    (= ascending `unique_id`) whatever is done to `model.agents` -/
+def byCreation (l : List AgentS) : List AgentS := sortStable (fun x y => decide (x.id ≤ y.id)) l
 
 /-- the agents an agent-type reporter keyed by `T` looks at (`_record_agenttype`, with the T3 repair:
-    a class whose instances are all gone is treated like one that never had any) -/
+    a class whose instances are all gone is treated like one that never had any).  A class with direct
+    instances is read from `agents_by_type[T]` (creation order), any other from `model.agents` (its current
+    order) -/
 def typeAgents (cfg : Cfg) (s : State) (T : Nat) : Option (List AgentS) :=
-  if s.types.contains T && s.agents.any (fun a => a.ty == T) then some (s.agents.filter fun a => a.ty == T)
+  if s.types.contains T && s.agents.any (fun a => a.ty == T) then some (byCreation (s.agents.filter fun a => a.ty == T))
   else if cfg.isAgentClass T then some (s.agents.filter fun a => cfg.isSub a.ty T)
   else none
 
-/-- the loop over `agenttype_reporters`; stops at the first unknown type (ValueError) -/
+/-- the loop over `agenttype_reporters`; stops at the first unknown type (ValueError) or at the first
+    reporter that raises (the dict keeps the types written before) -/
 def typeLoop (cfg : Cfg) (s : State) :
     List (Nat × List ARep) → List (Nat × List Row) → List (Nat × List Row) × Option Err
   | [], acc => (acc, none)
   | (T, reps) :: rest, acc =>
     match typeAgents cfg s T with
     | none => (acc, some .value)
-    | some ags => typeLoop cfg s rest (setKey T (ags.map (mkRow reps s.snap)) acc)
+    | some ags =>
+      match rowsExc reps s.snap ags with
+      | some e => (acc, some e)
+      | none => typeLoop cfg s rest (setKey T (ags.map (mkRow reps s.snap)) acc)
 
-/-- `DataCollector.collect` -/
+/-- `DataCollector.collect`.  Four places where it can end early, each leaving what was written before:
+    validation (first collect only: nothing stored), a model reporter (columns before it appended),
+    an agent reporter (model values and `_collection_steps` stored, no agent records), the agent-type loop
+    (`_agenttype_records[steps]` holds the types before the failing one). -/
 def collect (cfg : Cfg) (s : State) : State × Option Err :=
-  if !cfg.mreps.isEmpty && !s.validated && !validateOk cfg s then
-    ({ s with validated := true }, some .attr)
-  else
+  match guardErr cfg s with
+  | some e => ({ s with validated := true }, some e)
+  | none =>
     let sn := s.snap
-    let s1 := if cfg.mreps.isEmpty then s else
-      { s with validated := true
-               modelVars := List.zipWith (fun col r => col ++ [r.eval sn]) s.modelVars cfg.mreps }
-    let s2 := { s1 with collSteps := s1.collSteps ++ [s.steps] }
-    let s3 := if cfg.areps.isEmpty then s2 else
-      { s2 with records := setKey s.steps (s.agents.map (mkRow cfg.areps sn)) s2.records }
-    if cfg.treps.isEmpty then (s3, none)
-    else
-      let r := typeLoop cfg s cfg.treps []
-      ({ s3 with typeRecords := setKey s.steps r.1 s3.typeRecords }, r.2)
+    let m := mLoop sn cfg.mreps s.modelVars
+    let s1 := { s with validated := !cfg.mreps.isEmpty || s.validated, modelVars := m.1 }
+    match m.2 with
+    | some e => (s1, some e)
+    | none =>
+      let s2 := { s1 with collSteps := s1.collSteps ++ [s.steps] }
+      match rowsExc cfg.areps sn s.agents with
+      | some e => (s2, some e)
+      | none =>
+        let s3 := if cfg.areps.isEmpty then s2 else
+          { s2 with records := setKey s.steps (s.agents.map (mkRow cfg.areps sn)) s2.records }
+        if cfg.treps.isEmpty then (s3, none)
+        else
+          let r := typeLoop cfg s cfg.treps []
+          ({ s3 with typeRecords := setKey s.steps r.1 s3.typeRecords }, r.2)
 
 /-- `DataCollector.add_table_row` (with the T1 repair: the row is validated before any append) -/
 def addTableRow (s : State) (t : Nat) (row : List (Nat × Val)) (ignoreMissing : Bool) : State × Option Err :=
@@ -179,6 +279,7 @@ inductive Op where
   | collect
   | row (t : Nat) (r : List (Nat × Val)) (ignoreMissing : Bool)
   | stopAt (k : Nat)                                -- `if model.steps >= k: model.running = False`
+  | reorder (k : ReKind)                            -- `model.agents.shuffle(inplace=True)` / `.sort(…, inplace=True)`
 deriving Repr, DecidableEq
 
 def updAgent (id : Nat) (f : AgentS → AgentS) (l : List AgentS) : List AgentS :=
@@ -203,6 +304,7 @@ def apply (cfg : Cfg) (s : State) : Op → State × Option Err
   | .collect => collect cfg s
   | .row t r ign => addTableRow s t r ign
   | .stopAt k => ({ s with running := if s.steps ≥ k then false else s.running }, none)
+  | .reorder k => ({ s with agents := reorderList k s.agents }, none)
 
 /-- a history; a call that raises is caught by the caller and the history goes on -/
 def run (cfg : Cfg) (s : State) (ops : List Op) : State := ops.foldl (fun s op => (apply cfg s op).1) s
